@@ -41,6 +41,7 @@ PROGRAM_CFG = {
     'kwargs': True,
     'raw_kill': True,
     'p_required_output': 0.25,
+    'future_results': True,
     'p_async': 0.3,
     'max_awaits': 1,
 }
